@@ -139,7 +139,36 @@ class Gen:
 
     def body(self):
         n = 1 + self.rng.below(5)
-        return "\n  ".join(self.stmt() for _ in range(n))
+        inner = "\n  ".join(self.stmt() for _ in range(n))
+        return self.wrap(inner)
+
+    def wrap(self, inner):
+        """since commit 0426709 a kill must go through any nesting of limit-less brackets: wrap the whole program in
+        pcall / xpcall loops, limit-less callcontexts, coroutines"""
+        k = self.rng.below(100)
+        if k < 30:
+            return inner
+        if k < 42:
+            self.tags.append("W:pcall")
+            return "P(function()\n  " + inner + "\n  end)"
+        if k < 52:
+            self.tags.append("W:pcall2")
+            return "P(function() P(function()\n  " + inner + "\n  end) emit('mid') end)"
+        if k < 62:
+            self.tags.append("W:pcallloop")
+            return "for round = 1, 2 do P(function()\n  " + inner + "\n  end) emit('round', round) end"
+        if k < 72:
+            self.tags.append("W:xpcall")
+            return "xpcall(function()\n  " + inner + "\n  end, function(m) emit('HANDLER') return m end)"
+        if k < 82:
+            self.tags.append("W:ctx")
+            return "do local c = runtime.callcontext({}, function()\n  " + inner + "\n  end) emit('CTX', c.status) end"
+        if k < 91:
+            self.tags.append("W:coro")
+            return "coroutine.wrap(function()\n  " + inner + "\n  end)()"
+        self.tags.append("W:ctx-pcall-coro")
+        return ("do local c = runtime.callcontext({}, function() P(function() coroutine.wrap(function()\n  " + inner +
+                "\n  end)() end) end) emit('CTX', c.status) end")
 
 
 def program(body, resource, limit, outer=""):
